@@ -251,7 +251,7 @@ Fixpoint zrange (a : Z) (n : nat) : list Z :=
 
 Record rendered := mkrend {
   r_status : Z; r_st : sstate; r_mw : Z; r_bw : Z; r_ui : Z * Z; r_cursor : Z * Z;
-  r_look : list (list (option (Z * Z))); r_extra : Z;
+  r_look : list (list (option (Z * Z))); r_extra : Z; r_d2s : list Z;
   r_vlook : list (option (Z * Z)); r_grid : list (list str) }.
 
 Definition count_some {T} (l : list (list (option T))) : Z :=
@@ -296,7 +296,9 @@ Definition render_gen (fixed : bool) (g : cfg) (W Hh xpos ypos : Z) (text : str)
       let grid := map (fun y => map (fun x => cstr (scr_get (cscr out) (y + ypos) (x + xpos + mw)))
                                     (zrange 0 (Z.to_nat bw)))
                       (zrange 0 (Z.to_nat Hh)) in
-      Some (mkrend 0 st' mw bw (row, ucol) cur look (len (cr2 out) - count_some look) vlook grid)
+      (* display_to_source on EVERY display column of the cursor line (incl. the trailing blank) *)
+      let d2s := map (pl_d2s pl) (zrange 0 (S (length (pl_text pl)))) in
+      Some (mkrend 0 st' mw bw (row, ucol) cur look (len (cr2 out) - count_some look) d2s vlook grid)
     end
   end.
 
@@ -343,7 +345,7 @@ Definition sx_oyx (o : option (Z * Z)) : sx :=
 Definition enc_rendered (r : rendered) : sx :=
   L [A (r_status r); A (vs (r_st r)); A (vs2 (r_st r)); A (hs (r_st r)); A (r_mw r); A (r_bw r);
      sx_yx (r_ui r); sx_yx (r_cursor r);
-     L (map (fun row => L (map sx_oyx row)) (r_look r)); A (r_extra r);
+     L (map (fun row => L (map sx_oyx row)) (r_look r)); A (r_extra r); L (map A (r_d2s r));
      L (map sx_oyx (r_vlook r));
      L (map (fun row => L (map sx_str row)) (r_grid r))].
 
